@@ -901,6 +901,8 @@ def run(ctx: Ctx) -> None:
         todo.extend((kind, None) for _ in range(cnt))
     nsample = {}
     for kind, case in todo:
+        if ctx.out_of_time():
+            break
         if case is None:
             case = GENS[kind](ctx, rng)
         ctx.count("kind:" + kind)
